@@ -1,7 +1,7 @@
 //! C02 Shurooq and Maghrib are sunrise and sunset of the Sun's upper limb.
 use crate::common::*;
 use crate::refm;
-use chrono::{Days, NaiveDate};
+use chrono::NaiveDate;
 use islamic_prayer_times::*;
 use serde_json::{json, Value};
 
@@ -9,18 +9,19 @@ pub const TOL_ALT: f64 = 0.05;
 pub const H0: f64 = -0.833;
 pub const WEATHER_MAX_SHIFT_S: i64 = 60;
 
-/// altitude error (deg) of the reported rise/set instant, with the civil-date placement rule of DESIGN C02
-pub fn alt_err(site: Site, date: NaiveDate, s_dhuhr: i64, s: i64) -> f64 {
-    let o = cyc(s - s_dhuhr);
-    let x = s_dhuhr + o;
-    if (600..=85800).contains(&x) {
-        refm::altitude(refm::jd_of(date, s as f64 + 0.5, site.gmt), site.lat, site.lon) - H0
+/// altitude error (deg) at the reported instant: the reported clock time on the requested civil date.
+/// (The library reports the rise/set that falls inside the 24 h window starting at local midnight of
+/// that date, so this instant is the event itself also when the zone offset pushes it far from noon.)
+pub fn alt_err(site: Site, date: NaiveDate, _s_dhuhr: i64, s: i64) -> f64 {
+    let at = |d: NaiveDate| refm::altitude(refm::jd_of(d, s as f64 + 0.5, site.gmt), site.lat, site.lon) - H0;
+    if (600..=85800).contains(&s) {
+        at(date)
     } else {
-        // the event crosses local midnight: the library reports the civil date's own event
-        let mut best = f64::INFINITY;
-        for dd in [-1i64, 0, 1] {
-            let d = if dd < 0 { date - Days::new(1) } else if dd > 0 { date + Days::new(1) } else { date };
-            let e = refm::altitude(refm::jd_of(d, s as f64 + 0.5, site.gmt), site.lat, site.lon) - H0;
+        // within 10 minutes of the window boundary the final correction step may carry the event
+        // across it (24:01 is printed as 00:01): the instant may belong to the neighbouring civil date
+        let mut best = at(date);
+        for d in [date.pred_opt().unwrap(), date.succ_opt().unwrap()] {
+            let e = at(d);
             if e.abs() < best.abs() {
                 best = e;
             }
@@ -110,7 +111,7 @@ pub fn judge_weather(ctx: &Ctx, l: &mut Local, p: &Params, site: Site, date: Nai
 pub fn explore(ctx: &Ctx) {
     let quick = ctx.tier == Tier::Quick;
     ctx.rule("every (site, date, params[, weather]) tuple is enumerated once; non-trivial = both Shurooq and Maghrib reported and judged against the reference ephemeris (altitude clause), resp. each weather variant compared with the weather-less call");
-    ctx.assume("reference ephemeris Meeus ch.25 (self-tested); instant = civil date + (second + 0.5 s); when the event nearest to noon falls outside the civil day the best of the three candidate dates is taken (DESIGN C02)");
+    ctx.assume("reference ephemeris Meeus ch.25 (self-tested); instant = requested civil date + (reported second + 0.5 s), also when the zone offset puts the event on the far side of local midnight; only within 10 minutes of 00:00 the neighbouring civil dates are admitted as well (the last correction step can carry an event across the boundary)");
     ctx.assume("lattice coverage of the real-valued dimensions");
     let all = d_all();
     let lats: Vec<f64> = vec![0.0, 10.0, -10.0, 23.44, -23.44, 40.0, -40.0, 50.0, -50.0, 60.0, -60.0];
